@@ -1,7 +1,8 @@
 (* C16 property theorems (statements only; proofs are in Proofs.v).
 
-   [login_burst] / [step] model the code of /repo after the repairs F19, F20 (+C11-N1), C16-N1, C16-N3
-   (tied to it by the correspondence check on every run); [spec_burst] is what the property says the
+   [login_burst], [keeps_watchdog], [watchdog_on_connect] and the cleanup booleans are REGENERATED from the
+   source on every run (SlskGen.SessionGen, translate/tr_session.py); [step] is the hand model of the
+   remaining, shape-pinned coroutines (tied by the correspondence check on every run); [spec_burst] is what the property says the
    settings imply.  [run auto init es] is the session machine driven by an arbitrary list of events
    from the freshly constructed client; "plain" lists contain no loss in the middle of the login
    emission (LoginCut) - the one situation in which the code still loses track of its session
@@ -58,6 +59,17 @@ Proof.
   - intro L. apply Nat.ltb_lt in L. rewrite L in K. symmetry in K. apply andb_prop in K. exact K.
   - intros [A B]. rewrite A, B in K. cbn in K. now apply Nat.ltb_lt.
 Qed.
+
+(* ... and which reasons those are, in the code as it is now (regenerated from the CLOSING branch of
+   Network._on_server_connection_state_changed): exactly a requested disconnect and a server-side EOF
+   stop the watchdog; the watchdog is started on CONNECTED iff auto-reconnect; every cleanup the
+   machine relies on exists in the source (regenerated booleans). *)
+Theorem C16_reconnect_reasons :
+  (forall r, keeps_watchdog r = match r with RRequested | REof => false | RRead | RWrite | RTimeout => true end) /\
+  (forall auto, watchdog_on_connect auto = auto) /\
+  stop_cancels_watchdog = true /\ stop_stops_distributed = true /\ closed_resets_users = true /\ closed_resets_rooms = true /\
+  closed_stops_tracking = true /\ closed_destroys_session = true /\ state_change_resets_dist = true.
+Proof. repeat split; try reflexivity; intros []; reflexivity. Qed.
 
 (* stop() is final, from EVERY state (also after a loss in the login burst): afterwards the
    connection is not open, no watchdog, no pending potential-parent connect, and NO later event
